@@ -479,8 +479,9 @@ class HttpParser:
             self._is_chunked_encoded = True
 
     def _get_body_or_chunks(self) -> Optional[bytes]:
-        return ChunkParser.to_chunks(self.body) \
-            if self.body and self._is_chunked_encoded else \
+        # An empty chunked body still needs its last-chunk
+        return ChunkParser.to_chunks(self.body or b'') \
+            if self._is_chunked_encoded and (self.body or self.is_complete) else \
             self.body
 
     def _set_line_attributes(self) -> None:
